@@ -24,7 +24,9 @@ MANIFEST = dict(
     technique="Lean 4 proof (model of _extract_rc / per-host rc / exec_destroy / -S loop / main refines the "
               "exit-status specification; induction over host lists and lines) + differential correspondence of the "
               "real dsh.c, execcmd.c and the pdsh binary against the compiled model",
-    text="Theorems in lean/PdshVerif/Props/C08.lean about the model Dsh/Exit.lean: without -S/-k exit 0, refused "
+    text="Theorems in lean/PdshVerif/Props/C08.lean about the model Dsh/Exit.lean (composed with the fan-out LTS of C03: one "
+         "status per target in every schedule; with the option model of C18: pdcp/rpdcp exit 0, every refusal exits 1; with the "
+         "relay model of C05/C06 and the cbuf model of C13): the status marker is requested exactly with -S/-k, without -S/-k exit 0, refused "
          "arguments exit 1, -S = max of the remote codes raised to 254 (order independent), 0 iff every command ran "
          "and succeeded, marker extraction, abnormal termination non-zero, -k any failure non-zero; each proved for "
          "the repaired variant with a kernel-checked counterexample for the unchanged code where that is false; the "
@@ -466,12 +468,14 @@ REFUSED = [["-S", "-R", "exec", "true"],                                  # no t
 
 
 def run_cli(argv, timeout=25):
-    try:
-        p = subprocess.run(argv, stdin=subprocess.DEVNULL, stdout=subprocess.PIPE, stderr=subprocess.PIPE,
-                           env={"PATH": "/usr/bin:/bin"}, timeout=timeout)
-        return p.returncode, p.stderr.decode("utf-8", "replace")[-300:]
-    except subprocess.TimeoutExpired:
-        return None, "TIMEOUT"
+    for attempt in (0, 1):          # a time-out alone is tried once more before it is reported (loaded machine)
+        try:
+            p = subprocess.run(argv, stdin=subprocess.DEVNULL, stdout=subprocess.PIPE, stderr=subprocess.PIPE,
+                               env={"PATH": "/usr/bin:/bin"}, timeout=timeout)
+            return p.returncode, p.stderr.decode("utf-8", "replace")[-300:]
+        except subprocess.TimeoutExpired:
+            continue
+    return None, "TIMEOUT"
 
 
 def run_cancel(pdsh, helper, nhosts):
@@ -530,6 +534,12 @@ def run(ctx):
                    "through the scratch-built pdsh binary with -R exec and a helper command, plus refused argument lists; "
                    "including commands that close stdin/stdout/stderr and end 0.7-1.5 s later with a non-zero code or a signal "
                    "(exec_destroy must wait for them), plus refused argument lists; "
+                   "every quick run also contains, without randomness: every ordered pair of {rc 0, rc n, rc 255, signal, connect failure} "
+                   "x channel x {-S, -k, both, neither} x both completion orders; three targets with one failing target in every position "
+                   "(parallel: failing one first / last; fanout 1); canceled targets next to every outcome; every kind of overdue command "
+                   "(idle / chatty x dies / traps TERM and exits 0 / 255); the same classes through the real binary; marker lines with the "
+                   "marker at every position x boundary codes; (e) the command string dsh() hands to the transport (status marker requested "
+                   "exactly with -S / -k); "
                    "non-trivial = at least one target does not simply succeed (non-zero code, signal, failure, marker with "
                    "preceding text or later lines); distinct = distinct case text"}
     dist = {"xrc": 0, "xrc_with_marker": 0, "xd": 0, "dsh_domain": 0, "dsh_raw": 0, "cli": 0, "cli_refused": 0,
